@@ -157,11 +157,22 @@ class Exc:
         return f"Exc({self.tag},{self.args!r})"
 
 
-def exc_obs(e, with_attrs=True):
+LIBRARY_EXCEPTIONS = {"ValidationError", "InvalidNode", "InvalidNibbles", "BadTrieProof", "NodeOverrideError", "InvalidKeyError",
+                      "MissingTrieNode", "MissingTraversalNode", "TraversedPartialPath", "PerfectVisibility", "FullDirectionalVisibility"}
+
+
+def exc_obs(e, with_attrs=True, fog=False):
     """Canonical observation of an exception raised by the implementation."""
     name = type(e).__name__
     if name == "AbortBase":
         name = "Abort"          # the model has one way of leaving a block by an exception
+    # The library's exceptions are the classes of trie.exceptions: a class of the same NAME from elsewhere (eth_utils has a
+    # ValidationError too) is not caught by `except trie.exceptions.ValidationError` and is a different observation.
+    # (trie/fog.py raises eth_utils.ValidationError, and always has: `fog=True` accepts that one there.)
+    mod = getattr(type(e), "__module__", "")
+    if name in LIBRARY_EXCEPTIONS and mod != "trie.exceptions":
+        if not (fog and name == "ValidationError" and mod.startswith("eth_utils")):
+            return Exc(99, [(mod + "." + name).encode()])
     tag = EXC_TAGS.get(name)
     # Part of what a caller observes is WHICH handlers catch the exception. The library's exception classes are
     # pairwise unrelated (each derives from Exception directly); one that has become a subclass of another would be
